@@ -1,4 +1,5 @@
 import SaphyrModel.Proofs.Run
+import SaphyrModel.Pipeline
 /-! # C02 — Events always form a well-nested YAML event sentence
 
 Property theorems only. The grammar of event sentences is the automaton `gStep`/`gRun` of
@@ -45,6 +46,27 @@ theorem C02_anchors : C02_anchors_full := by
   intro toks scanErr eof keep fuel
   exact iterate_anchors fuel (Api.init (PState.init toks scanErr eof keep)) rfl
     ⟨by simp [Api.init, PState.init], by simp [Api.init, PState.init]⟩
+
+/-- **End to end, for every input.** For every character sequence, input back-end, capacity and
+    `keep_tags` setting: if the scanner model does not stop at a panic site (it never does on a
+    string input apart from fuel: `C01.scanner_str_no_panic`), the events the pipeline
+    `characters → scanner → parser` delivers are a prefix of a well-nested sentence, a whole
+    sentence when no error is reported, and the parser reaches none of its panic sites. -/
+theorem C02_end_to_end (k : Sc.InKind) (cap : Nat) (keep : Bool) (text : Str)
+    (r : List Ev × Option (Res Unit)) (h : Pipeline.events k cap keep text = some r) :
+    IsPrefix (r.1.map (·.1)) ∧ (r.2 = none → IsSentence (r.1.map (·.1))) ∧
+      (∀ x, r.2 = some (.panic x) → x = .fuel) := by
+  unfold Pipeline.events at h
+  cases hp : Pipeline.parserOf k cap keep text with
+  | none => simp [hp] at h
+  | some p =>
+    simp only [hp, Option.map_some, Option.some.injEq] at h
+    subst h
+    unfold Pipeline.parserOf at hp
+    split at hp
+    · simp at hp
+    · simp only [Option.some.injEq] at hp; subst hp; exact C02_grammar _ _ _ _ _
+    · simp only [Option.some.injEq] at hp; subst hp; exact C02_grammar _ _ _ _ _
 
 /-- one step, any state reachable or not: a parser state related to a grammar configuration steps
     to a related one, emitting an event the grammar accepts; `pop_state().unwrap()` is safe -/
